@@ -102,12 +102,16 @@ where
             download_eof: Arc::new(Notify::new()),
             upload_rx: Some(upload_rx),
             upload_tx,
+            // the codec also serves the metrics listener, which exists whether or not
+            // HTTP/1.1 is a listen protocol of the endpoint
             upload_buffer_size: core_settings
                 .listen_protocols
                 .http1
                 .as_ref()
-                .unwrap()
-                .upload_buffer_size,
+                .map_or_else(
+                    crate::settings::Http1Settings::default_upload_buffer_size,
+                    |x| x.upload_buffer_size,
+                ),
             parent_id_chain,
             next_request_id: 0..,
         }
